@@ -188,10 +188,10 @@ def run(ctx):
     pairs3 = [(a, b) for a in range(3) for b in range(3)]
     allsmall = list(range(512))
     rng.shuffle(allsmall)
-    for m in allsmall[:ctx.scale(90, 512)]:
+    for m in allsmall[:ctx.scale(90, 180)]:
         small.append((3, [pairs3[i] for i in range(9) if m >> i & 1]))
     big = []
-    for _ in range(ctx.scale(150, 1500)):
+    for _ in range(ctx.scale(150, 450)):
         n = rng.choice([4, 4, 5, 5, 6, 6])
         style = rng.random()
         ne = rng.randint(1, 2 * n)
@@ -233,7 +233,7 @@ def run(ctx):
         meta[jid] = (cls, n, edges, qs, qmeta, ac)
 
     # ---------------- reset/shift programs
-    nP = ctx.scale(900, 12000)
+    nP = ctx.scale(900, 2700)
     per_job = 30
     progs = []
     for i in range(nP):
